@@ -77,8 +77,7 @@ Proof. eexists. split; [vm_compute; reflexivity|]. split; [reflexivity|]. eexist
 
     A whole statement (C02_simple_select_partial): sqlc's outputColumns and the
     row description of Spec/PgScope.describe agree on acceptance, on the NUMBER
-    of result columns and, column by column, on the name (row_rel: equal names,
-    or the reference row has no name for an un-aliased expression).
+    of result columns and, column by column, on the name (row_rel).
     The statements covered ("simple SELECT"): SELECT <targets> FROM <base
     tables, each with or without alias, separated by commas or combined by JOIN> [WHERE / GROUP BY / HAVING / ORDER BY]
     with no WITH clause and no sub-select; every target a star (bare or qualified by a
@@ -167,7 +166,7 @@ Example C02_simple_select_non_vacuous :
   exists row cols,
     describe t_cat true true 5 [] [] simple_stmt = POk row /\
     output_columns 5 (mk_env EPostgres t_cat []) [] simple_stmt = Ok cols /\
-    map sc_name row = ["id"; "id"; ""] /\ map qc_name cols = ["id"; "id"; "count"].
+    map sc_name row = ["id"; "id"; "count"] /\ map qc_name cols = ["id"; "id"; "count"].
 Proof. eexists. eexists. vm_compute. repeat split; reflexivity. Qed.
 Example C02_simple_select_hypotheses :
   let e := mk_env EPostgres t_cat [] in
